@@ -7,4 +7,18 @@ CHECKS = {
         ref="DESIGN.md 3/C01", note=S_NOTE,
         technique="stateless model checking of the implementation (prefix-replay DFS, preemption bounding, state caching)"),
 }
+def _s(text, ref):
+    return dict(text=text, ref=ref, note=S_NOTE,
+                technique="stateless model checking of the implementation (prefix-replay DFS, preemption bounding, state caching)")
+
+CHECKS["C02"] = _s("Same exploration as C01 with the launch oracle: at every job process start every configured blocker has a result row on disk at that instant. Adds exit codes/cancel flags on representative graphs and local mode on all DAGs <=3 (thorough 4).", "DESIGN.md 3/C02")
+CHECKS["C03"] = _s("All DAGs on <=3 jobs x exit codes {0,1}^n (thorough also {0,2,255}) x cancel flags x 6 parameter sets (two groups, max-nodes 1, local) under all finish orders; representative graphs with failures under every schedule with <=1/<=2 preemptions incl. the recovery actor. results.json is compared with a 30-line reference evaluator.", "DESIGN.md 3/C03")
+CHECKS["C04"] = _s("The C03 space with a per-job oracle: canceled row (status canceled, rc != 0) and zero launches iff the reference evaluator says canceled; other jobs launched exactly once.", "DESIGN.md 3/C04")
+CHECKS["C05"] = _s("Representative graphs x max-nodes {1,2,unset} under every schedule with <=1/<=2 preemptions, with a re-armed recovery actor (try-submit-jobs and show-status -n) enabled exactly when nothing is queued/running and the submission is incomplete; plus the C01 input grid. Oracles: recovery round progresses, no ready job left below max-nodes, completion once, results.json before the flag, no sbatch after it.", "DESIGN.md 3/C05")
+CHECKS["C06"] = _s("Representative graphs and all 3-job DAGs x max-nodes {1,2} x processes {1,2,unset} x batch sizes under every schedule with <=1/<=2 preemptions; the oracle counts the simulator's ground truth (batches pending/running after each accepted sbatch, live job processes after each launch).", "DESIGN.md 3/C06")
+E_NOTE = "Trusted base: the reference models in /verif/jmc/echecks.py and the two seams named in the evidence (scripted command answers below run_command's retry loop, scripted samples below the aggregator); finite domains are enumerated completely, nothing beyond them is claimed."
+def _e(text, ref):
+    return dict(text=text, ref=ref, note=E_NOTE, technique="bounded-exhaustive enumeration of the input / answer-sequence space through the real code against a reference model")
+CHECKS["C18"] = _e("Complete enumeration: 3^9 SLURM option assignments rendered for two groups and compared byte-for-byte with a reference rendering; squeue outputs over all 24 SLURM states x 8 whitespace shapes (0-2 batches) through the real status collector and is_complete; 7 sbatch answers through the real queue; every outcome sequence of a retried command for retries 0-3 in 3 calling modes.", "DESIGN.md 3/C18")
+CHECKS["C20"] = _e("Complete enumeration: all multisets of <=3/<=4 events spread over 1-3 per-process files written by the real event logger and consolidated twice; every sample sequence of length <=4 over {0,1,2,5} through the real aggregator; every result set over 5 classes for <=4 jobs through the real completion code and ResultsSummary.", "DESIGN.md 3/C20")
 NOT_APPLICABLE = {}
